@@ -1179,3 +1179,68 @@ def c08_r5(ctx):
     outs = Interp(fi, lambda e: True if " in " in norm(strip_pre(e)) and "MIXIN_NAME" in norm(strip_pre(e)) or "'mixin' in" in norm(strip_pre(e)) else None).run()
     ctx.check(bool(outs) and all(o.kind == "return" and is_name(strip_pre(o.value), fi.node.args.args[0].arg) and not o.effects for o in outs), key(fi, "idempotent"),
               "a schema that already declares @mixin is not returned unchanged", fi.loc(), okmsg="already declared -> schema returned unchanged")
+
+
+# ---------------------------------------------------------------------- C01.R13
+@rule("C01.R13", "fragments spread on an abstract field are attributed to it exactly when their type is a possible type of the field's type", min_instances=6,
+      also=["C08", "C05"])
+def c01_r13(ctx):
+    repo = ctx.repo
+    fi = repo.func(RF + "get_fragments_on_subtype")
+    eff = lambda c: isinstance(c.func, ast.Attribute) and c.func.attr in ("append", "extend", "add")
+
+    def mk(has_sel=True, root_known=True, abstract=True, is_spread=True, frag_type_known=True, is_sub=True):
+        def atom(e):
+            t = norm(strip_pre(e))
+            if t == "selection_set":
+                return has_sel
+            if t == "not selection_set":
+                return not has_sel
+            if t in ("schema.get_type(root_type) is None", "root_type_def is None"):
+                return not root_known
+            if t in ("schema.get_type(root_type) is not None", "root_type_def is not None", "schema.get_type(root_type)", "root_type_def"):
+                return root_known
+            if t.startswith("is_abstract_type("):
+                return abstract
+            if t.startswith("isinstance(") and t.endswith(", FragmentSpreadNode)"):
+                return is_spread
+            if t.startswith("schema.is_sub_type(") or ".is_sub_type(" in t and t.endswith(")") and not t.startswith("not "):
+                return is_sub
+            if t.startswith("schema.get_type(") and "type_condition" in t or t == "fragment_root_type_def":
+                return frag_type_known
+            if t.endswith(".selections"):
+                return True
+            return None
+        return atom
+
+    def fragments_added(outs):
+        res = set()
+        for o in outs:
+            if o.kind != "return":
+                res.add("raise")
+                continue
+            if any("loop skipped" in t for t in o.trace):
+                continue
+            v = strip_pre(o.deref(o.value)) if isinstance(o.value, ast.Name) else strip_pre(o.value)
+            muts = o.muts(o.value.id) if isinstance(o.value, ast.Name) else []
+            if o.value is None or is_const(o.value, None):
+                res.add("returns None")
+                continue
+            added = bool(muts) or (isinstance(v, (ast.ListComp,))) or (isinstance(v, ast.List) and bool(v.elts))
+            res.add(added)
+        return res
+    rows = [("spread of a fragment on a possible type", dict(), {True}),
+            ("spread of a fragment on an unrelated type", dict(is_sub=False), {False}),
+            ("fragment type unknown to the schema", dict(frag_type_known=False, is_sub=False), {False}),
+            ("selection that is no fragment spread", dict(is_spread=False), {False}),
+            ("field type is not abstract", dict(abstract=False), {False, None}),
+            ("no selection set", dict(has_sel=False), {False, None})]
+    for label, kwargs, want in rows:
+        outs = Interp(fi, mk(**kwargs), is_effect=eff).run()
+        got = fragments_added(outs)
+        if label in ("field type is not abstract", "no selection set"):
+            good = bool(outs) and all(o.kind == "return" and not o.effects and norm(strip_pre(o.value)) in ("[]", "list()") for o in outs)
+        else:
+            good = bool(got) and got <= want and "raise" not in got
+        ctx.check(good, key(fi, label), f"[{label}] fragment attributed: {sorted(map(str, got))}, outcomes {[o.text()[:80] for o in outs][:3]}; expected {sorted(map(str, want))}: "
+                  "a fragment on a member type must give that member its own class; anything else must not", fi.loc(), okmsg=f"[{label}] -> {'attributed' if want == {True} else 'not attributed'}")
